@@ -52,7 +52,19 @@ func (c *WALCleaner) CleanupOldWALFiles(walfileAbsPaths []string) error {
 
 		w, err := TakeOverWALFile(fp)
 		if err != nil {
-			return fmt.Errorf("opening %s: %w", fp, err)
+			var takeOverErr WALTakeOverError
+			if !errors.As(err, &takeOverErr) {
+				return fmt.Errorf("opening %s: %w", fp, err)
+			}
+			// The status message at the head of the file does not name another instance as its
+			// owner (e.g. it was zeroed by a power loss): nothing in the file can be trusted.
+			// Like a file that cannot be replayed, it is moved aside so that start-up continues.
+			tmpFP := fp + ".tmp"
+			if err2 := wal.Move(fp, tmpFP); err2 != nil {
+				return fmt.Errorf("failed to move old wal file %s to a tmp file:%w", fp, err2)
+			}
+			log.Info(fmt.Sprintf("Unable to take over %s (%v). moved it to a temporary file %s", fp, err, tmpFP))
+			continue
 		}
 		if err = w.Replay(false); err != nil {
 			// ---  move walfile to a temporary file and skip replay to continue other marketstore process
